@@ -42,7 +42,7 @@ def _table():
     table = {}
     for name, (fn, fam) in specs.items():
         def factory(quick, seed, name=name, fn=fn):
-            return W.make_harness(name, fn, Tier(quick, seed, cplx=True), ("num", "rev", "fwd"), judge_c09, PROP)
+            return W.make_harness(name, fn, Tier(quick, seed, cplx=True, reduced=quick), ("num", "rev", "fwd"), judge_c09, PROP)
         table["cat:" + name] = factory
     table["corollaries"] = corollaries_factory
     return table
